@@ -150,7 +150,8 @@ IFACE += ["function f1(x) result(r) bind(c)\nreal x, r\nend function f1", "funct
           "pure elemental function f4(x)\nreal, intent(in) :: x\nend function f4", "recursive subroutine s5(a, *)\ninteger a\nend subroutine s5", "subroutine s6() bind(c, name='s_6')\nend subroutine s6",
           "character(len=5) function f7()\nend function f7", "type(tt) function f8()\nend function f8", "subroutine s9\nend subroutine"]
 FORMATS = ["a // a", "i3, /, /, a", "a, :, :, i2", "2/, a", "i2, 3x, /, /, /", "1x, i5", "i5", "f10.3", "a", "3(i2, 1x)", "'text'", "e12.4", "2i5", "a, /, a", "i5.3, es12.4", "l1, g10.3", "tr2, tl1, t10"]
-FORMATS += ["i5.3, b8, o4.2, z8.4", "f10.3, d12.4, e12.4e2, en12.4, es12.4e1, g10.3e2", "l1, a10, a", "t10, tl2, tr3, 5x", "ss, sp, s, bn, bz", "rd, rz, rn, rc, ru, rp", "dc, dp", "2p, f8.2", "dt, dt'x'(1, 2)",
+FORMATS += ["dt(8, 3), dt'n'(1), dt", "dt(1), a", "2(dt(4, 5))",
+            "i5.3, b8, o4.2, z8.4", "f10.3, d12.4, e12.4e2, en12.4, es12.4e1, g10.3e2", "l1, a10, a", "t10, tl2, tr3, 5x", "ss, sp, s, bn, bz", "rd, rz, rn, rc, ru, rp", "dc, dp", "2p, f8.2", "dt, dt'x'(1, 2)",
             "2(i2, 3(f4.1, a)), i2", "'a''b', \"c\"", "i2, :, a", "*(i2, 1x)"]
 
 VALID = "module m\ninteger :: a\ncontains\nsubroutine s\nend subroutine s\nend module m\n"
